@@ -17,7 +17,10 @@ def replay(spec):
         pd = {"massaction": {"k": 1.5}, "hillpositive": {"k": 1.0, "K": 2.0, "n": 2, "s1": "X"},
               "general": {"rate": "0.5*Y + 1"}}[pt]
         re, pr, dre, dpr = spec["reactants"], spec["products"], spec["dre"], spec["dpr"]
-        rx = (re, pr, pt, pd, "fixed", dre, dpr, {"delay": 1.0}) if (dre or dpr) else (re, pr, pt, pd)
+        if (dre or dpr) and spec.get("nodelay"):
+            rx = (re, pr, pt, pd, None, dre, dpr, {})
+        else:
+            rx = (re, pr, pt, pd, "fixed", dre, dpr, {"delay": 1.0}) if (dre or dpr) else (re, pr, pt, pd)
         M = Model(species=spec["order"], reactions=[(["Z"], ["X"], "massaction", {"k": 2.0}), rx])
         U, D = M.py_get_update_array(), M.py_get_delay_update_array()
         idx = M.get_species2index()
